@@ -1846,6 +1846,9 @@ class ShortcutNode(ListNode):
             raise ValueError(f"Multiply cannot follow a jump. Given: {list(p)}")
         self._nodes.append(copy.deepcopy(last_val))
         self.nodes[-1].value *= mult_val
+        # the product is a value of its own: a later type conversion (U, LAT, FILL: _convert_to_int
+        # re-reads the token) must not fall back to the token of the value it was copied from
+        self.nodes[-1]._token = str(self.nodes[-1].value)
 
     def _expand_jump(self, p):
         try:
